@@ -229,6 +229,21 @@ def errors(ctx):
             n += 1
             # matched through discriminant reads also count as a use (rv place)
             ok = dl in used
+            if ok:
+                # `res.ok();` / `res.err();` / `drop(res)` with the outcome unused discard the error just as well
+                consumers = [t2 for bb2, t2 in b.calls() if any(op_place(a) and op_place(a)['l'] == dl and not op_place(a).get('p') for a in t2['args'])]
+                other_use = False
+                for bb2 in b.live_blocks():
+                    for s2 in b.stmts(bb2):
+                        if 'assign' in s2:
+                            rv2 = s2['rv']
+                            pls = [op_place(rv2[k]) for k in ('op', 'l', 'r', 'a') if isinstance(rv2.get(k), dict)] + ([rv2['place']] if 'place' in rv2 else []) + [op_place(o) for o in rv2.get('ops', [])]
+                            if any(p_ and p_['l'] == dl for p_ in pls):
+                                other_use = True
+                discards = [t2 for t2 in consumers if strip_generics(cname(t2)).endswith(('Result::ok', 'Result::err', 'mem::drop'))
+                            and ('dest' not in t2 or t2['dest']['l'] not in used or strip_generics(cname(t2)).endswith('mem::drop'))]
+                if consumers and len(discards) == len(consumers) and not other_use:
+                    ok = False
             if not ok and fl in RESULT_DROP_REVIEWED:
                 ok = True
             ctx.ob('ERRORS', '%s/%s#%d' % (fl, strip_generics(cname(t)).rsplit('::', 1)[-1], sum(1 for bb2, t2 in b.calls() if bb2 < bb and cname(t2) == cname(t))),
